@@ -91,6 +91,63 @@ def literal(c, cid):
     return "0%s%s%s%d%s" % ("xX"[(h >> 4) & 1], body, "pP"[(h >> 3) & 1], ex2, sfx)
 
 
+FSFX = dict(float="f", double="", ldouble="L")
+ISFX = dict(bool="", char="", uchar="", short="", ushort="", int="", uint="U", long="L", ulong="UL")
+
+
+def operand_literal(t, b):
+    """a constant expression of type t whose value is the operand with object bytes b (None if there is none:
+    NaN and infinities have no literal)"""
+    if t in FLT:
+        v = int.from_bytes(bytes(b), "little")
+        if t == "float":
+            sign, e, fr, p, bias = v >> 31, (v >> 23) & 0xff, v & 0x7fffff, 24, 127
+            if e == 0xff:
+                return None
+            m, ex = (fr, 1 - bias - (p - 1)) if e == 0 else (fr | 1 << 23, e - bias - (p - 1))
+        elif t == "double":
+            sign, e, fr, p, bias = v >> 63, (v >> 52) & 0x7ff, v & ((1 << 52) - 1), 53, 1023
+            if e == 0x7ff:
+                return None
+            m, ex = (fr, 1 - bias - (p - 1)) if e == 0 else (fr | 1 << 52, e - bias - (p - 1))
+        else:
+            sign, e, m, p, bias = v >> 79, (v >> 64) & 0x7fff, v & ((1 << 64) - 1), 64, 16383
+            if e == 0x7fff:
+                return None
+            ex = (1 if e == 0 else e) - bias - (p - 1)
+        lit = "0.0" + FSFX[t] if m == 0 else "0x%xp%d%s" % (m, ex, FSFX[t])
+        return "(-%s)" % lit if sign else lit
+    n = int_of(t, b)
+    if n == -(1 << 63):
+        lit = "(-9223372036854775807L - 1)"
+    elif n < 0:
+        lit = "(-%d%s)" % (-n, ISFX[t])
+    else:
+        lit = "%d%s" % (n, ISFX[t])
+    return "(%s)%s" % (CT[t], lit)
+
+
+def context(i, c):
+    """how case i is embedded in the program: operands from memory, as literals in a run-time expression,
+    or as literals in a static initializer (translation-time evaluation)"""
+    f = c["f"]
+    if f in ("arith", "neg", "mixed", "conv", "cmp", "truth") and c["op"] not in ("inc", "dec", "if") \
+            and not (f == "mixed" and c["op"] == "cond"):
+        xl = operand_literal(c["at"], c["xb"])
+        yl = operand_literal(c["bt"], c["yb"]) if c["yb"] else ""
+        m = i % (5 if f == "conv" else 6)
+        if xl is not None and yl is not None:
+            if f == "conv" and m == 4:
+                return "static", xl, yl
+            if f != "conv" and m == 5:
+                return "static", xl, yl
+            if f != "conv" and m == 2:
+                return "literal", xl, yl
+    if f in ("dec", "hex") and i % 3 == 2:
+        return "static", None, None
+    return "memory", None, None
+
+
 def render(i, c):
     f, op, at, bt, rt = c["f"], c["op"], c["at"], c["bt"], c["rt"]
     RT = CT[rt]
@@ -104,26 +161,54 @@ def render(i, c):
         if c["yb"]:
             pre.append("%s y; memcpy(&y, I%d + %d, %d);" % (CT[bt], i, len(c["xb"]), len(c["yb"])))
     v = i % 3
-    if f == "conv":
+    mode, xl, yl = context(i, c)
+    if mode != "memory" and f not in ("dec", "hex"):
+        pre = []
+        if f == "conv":
+            e = "(%s)%s" % (RT, xl)
+        elif f == "neg":
+            e = "-%s" % xl
+        elif f == "truth" and op in ("not", "cond"):
+            e = "!%s" % xl if op == "not" else "%s ? 1 : 0" % xl
+        else:
+            e = "%s %s %s" % (xl, OPS[op], yl)
+        if mode == "static":
+            out.append("static %s G%d = %s;" % (RT, i, e))
+            body.append("%s r = G%d;" % (RT, i))
+        else:
+            body.append("%s r = %s;" % (RT, e))
+        if f == "conv" and rt not in FLT:
+            body.append('printf("W %d %%lu\\n", (unsigned long)(%s));' % (i, e))
+    elif f == "conv":
         e = "(%s)x" % RT
+        v = i % 5
         if v == 0:
             body.append("%s r = %s;" % (RT, e))
-        elif v == 1:
+        elif v in (1, 4):
             body.append("%s r = x;" % RT)
-        else:
+        elif v == 2:
             out.append("static %s g%d(%s v) { return v; }" % (RT, i, CT[at]))
+            body.append("%s r = g%d(x);" % (RT, i))
+        else:
+            out.append("static %s g%d(%s v) { return v; }" % (RT, i, RT))
             body.append("%s r = g%d(x);" % (RT, i))
         if rt not in FLT:
             body.append('printf("W %d %%lu\\n", (unsigned long)(%s));' % (i, e))
+    elif f == "mixed" and op == "cond":
+        e = "(I%d[0] | 1) ? x : y" % i
+        body.append("%s r = %s;" % (RT, e))
     elif f in ("arith", "mixed"):
         e = "x %s y" % OPS[op]
         if f == "arith" and v == 1:
             body.append("%s r = x; r %s= y;" % (RT, OPS[op]))
         else:
             body.append("%s r = %s;" % (RT, e))
+    elif f == "opasg":
+        e = "x %s= y" % OPS[op]
+        body.append("%s r = (%s);" % (RT, e) if v == 1 else "%s; %s r = x;" % (e, RT))
     elif f == "neg":
-        e = "-x"
-        body.append("%s r = -x;" % RT)
+        e = dict(neg="-x", inc="++x", dec="x--")[op]
+        body.append("%s r = -x;" % RT if op == "neg" else "%s; %s r = x;" % (e, RT))
     elif f == "cmp":
         e = "x %s y" % OPS[op]
         if v == 1:
@@ -148,7 +233,7 @@ def render(i, c):
             body.append("int r = %s;" % e)
     elif f in ("dec", "hex"):
         e = literal(c, i)
-        if v == 2:
+        if mode == "static":
             out.append("static %s G%d = %s;" % (RT, i, e))
             body.append("%s r = G%d;" % (RT, i))
         else:
@@ -290,6 +375,18 @@ def sig_of(c, exp, got):
         kind = "type"
     else:
         kind = None
+    if context(c["_i"], c)[0] == "static" and f not in ("dec", "hex"):
+        # translation-time evaluation (eval2 / eval_double); the class names the operand that matters
+        ops = [(at, c["xb"])] + ([(bt, c["yb"])] if c["yb"] else [])
+        if any(t == "int" and int_of("int", b) < 0 for t, b in ops):
+            cls = "int32-negative"        # a negative int operand (eval2 ND_CAST zero-extends it, D10)
+        elif rt == "bool" and at not in FLT:
+            cls = "int-to-bool"
+        elif any((t in FLT and fval_class(t, b) == "ge2^63") or (t not in FLT and int_of(t, b) >= 1 << 63) for t, b in ops):
+            cls = "ge2^63"
+        else:
+            cls = "value"
+        return "static-init:%s:%s:%s%s:%s" % (f, op, SHORT[at], "," + SHORT[bt] if bt != "-" else "", kind or cls)
     if f == "conv":
         if at in FLT:
             cls = fval_class(at, c["xb"])
@@ -305,12 +402,12 @@ def sig_of(c, exp, got):
         return "%s:%s:%s:%s" % (f, op, SHORT[at], kind or ("nan" if "nan" in cl else "negzero" if "negzero" in cl else "value"))
     if f in ("dec", "hex"):
         return "const:%s:%s:%s:%s" % (f, SHORT[rt], "static" if c["_i"] % 3 == 2 else "local", kind or "value")
-    if f == "mixed":
+    if f in ("mixed", "opasg"):
         cl = set()
         for t, b in ((at, c["xb"]), (bt, c["yb"])):
             if t not in FLT and int_of(t, b) >= 1 << 63:
                 cl.add("ge2^63")
-        return "mixed:%s:%s,%s:%s" % (op, SHORT[at], SHORT[bt], kind or ("ge2^63" if cl else "value"))
+        return "%s:%s:%s,%s:%s" % (f, op, SHORT[at], SHORT[bt], kind or ("ge2^63" if cl else "value"))
     return "%s:%s:%s" % (f, SHORT[at], kind or "value")
 
 
@@ -366,29 +463,45 @@ def compare(ctx, tree, cases, tag, first=0, compiler="chibicc"):
     return res, bad
 
 
-def generate(ctx, fams, stride, name):
+def gen_job(ctx, fams, stride, name):
     out = os.path.join(ctx.scratch, name + ".ndjson")
-    cfg = ctx.cfg("float", "FloatGen.cfg", Fams="{" + ",".join('"%s"' % f for f in fams) + "}", Seed=ctx.seed % max(stride, 1),
-                  Stride=stride)
-    g = ctx.tlc("float", "FloatGen", cfg, env=dict(OUT=out), workers=TLC_WORKERS, heap="6g", timeout=1500)
-    if not g.ok:
-        raise Infra("FloatGen failed: " + g.trace_text()[:2000])
-    rows = vt.read_ndjson(out)
-    rows.sort(key=case_key)                       # worker interleaving must not influence case numbers
-    return rows
+    cfg = ctx.cfg("float", "FloatGen.cfg", name=name, Fams="{" + ",".join('"%s"' % f for f in fams) + "}",
+                  Seed=ctx.seed % max(stride, 1), Stride=stride)
+    return dict(name=name, module="FloatGen", cfg=cfg, expect="gen", workers=4, env=dict(OUT=out), out=out)
 
 
 def run(ctx):
     q = ctx.quick
-    tree = ctx.build()
-    ctx.phase("build")
     import c02_mc
-    c02_mc.model_check(ctx)
-    ctx.phase("model check")
-    small = generate(ctx, ["conv", "neg", "truth", "vararg"], 3 if q else 1, "small")
-    big = generate(ctx, ["arith", "cmp", "dec", "hex", "mixed"], 5 if q else 1, "big")
-    ctx.phase("generation")
-    rows = small + big
+    # VERIF_C02_SKIP_MC is a development aid for mutant runs (the model check does not depend on the tree);
+    # registered commands never set it
+    jobs = [] if os.environ.get("VERIF_C02_SKIP_MC") else c02_mc.jobs(ctx)
+    # the large families are subsampled in the quick tier; conv, neg, the unary truth tests and vararg never are
+    jobs += [gen_job(ctx, ["conv", "neg", "truth", "vararg"], 3 if q else 1, "gen-small"),
+             gen_job(ctx, ["arith", "cmp"], 5 if q else 1, "gen-arith"),
+             gen_job(ctx, ["dec", "hex", "mixed", "opasg"], 5 if q else 1, "gen-const")]
+    box = {}
+
+    def do(j):
+        if j == "build":
+            box["tree"] = ctx.build()
+            return None
+        return ctx.tlc("float", j["module"], j["cfg"], env=j["env"], workers=min(j["workers"], TLC_WORKERS), heap="4g",
+                       timeout=1500, count=False)
+    results = vt.pmap(do, ["build"] + jobs, workers=len(jobs) + 1)[1:]
+    tree = box["tree"]
+    ctx.phase("build + model check + generation (concurrent)")
+    rows = []
+    for j, res in zip(jobs, results):
+        if j["expect"] == "gen":
+            if not res.ok:
+                raise Infra("FloatGen failed: " + res.trace_text()[:2000])
+            ctx.cov["states"] += res.distinct
+            ctx.cov["transitions"] += res.generated
+            rows += vt.read_ndjson(j["out"])
+        else:
+            c02_mc.judge(ctx, j, res)
+    rows.sort(key=case_key)                       # worker interleaving must not influence case numbers
     if len(rows) < 2000:
         raise Infra("generator wrote only %d vectors" % len(rows))
     if os.environ.get("VERIF_C02_ORACLE") == "gcc":
